@@ -34,12 +34,13 @@ def run(ck: Check) -> None:
     # H1 / H2: shared engines, reported under this property's rule names
     c04.t5(_Alias(ck, "T5", "H1"))
     c04.successor_protocol(ck, "H2")
+    c04.source_variables(ck, "H2")   # "at the root: those fixing every source variable"
     from . import c15
     c15.e5(_Alias(ck, "E5", "H2"))  # the successor list is complete where children are created
     h1_root(ck)
     h3(ck)
     ck.floor("H1", 5)
-    ck.floor("H2", 6)
+    ck.floor("H2", 7)
     ck.floor("H3", 4)
 
 
